@@ -82,6 +82,12 @@ func runC13(c *engine.Ctx) {
 		name string
 		m    ref.Msg
 	}{"(empty)", ref.Msg{H: univ.BaseHdr}})
+	// requests and responses of every exchange, from either end: the header of base i takes the flags and the exchange
+	// type of its index (the rule for unsupported payloads is the same for all of them)
+	for i := range bases {
+		bases[i].m.H.Flags = []uint8{0x08, 0x20, 0x00, 0x28, 0x30, 0x18}[i%6]
+		bases[i].m.H.Exch = []uint8{35, 34, 36, 37, 43}[i%5]
+	}
 	lens := []int{0, 1, 2, 3, 4, 5, 6, 7, 8, 255, 256, 1020, 1021, 1022, 1023, 1024}
 	var allLens []int
 	for i := 0; i <= 1024; i++ {
